@@ -48,18 +48,21 @@ CLI_CMD = {"pipeline": "pipeline", "perf": "perf", "improper-logging": "improper
            "magic-numbers": "magic-numbers", "unwrap-abuse": "unwrap-abuse", "clone-abuse": "clone-abuse",
            "blocking-async": "blocking-async"}
 
-PY_CLASSES_QUICK = ["InFn", "InMethod", "InClassBody", "InIf", "InNameIf", "InFor", "InWhile", "InTry", "InWith", "AfterFiller",
-                    "BeforeFiller", "AfterNamesList", "BeforeNamesNum", "AfterOpenFiller", "Times2", "Times3", "Rename"]
-PY_CLASSES_MORE = ["InAsyncFn", "AfterNamesStr", "BeforeNamesList", "Times5", "FnIfAfter", "MethodTryBefore", "IfWithFnFiller"]
-TS_CLASSES = ["InFn", "InMethod", "InIf", "InFor", "InTry", "AfterFiller", "BeforeFiller", "Times2", "Times3"]
-
-TS_WRAP = {
-    "InFn": (["function _tvWrap(_tvA) {"], ["}"]),
-    "InIf": (["if (_tvCond) {"], ["}"]),
-    "InFor": (["for (const _tvI of _tvXs) {"], ["}"]),
-    "InTry": (["try {"], ["} catch (_tvE) {", "    throw _tvE;", "}"]),
-}
+PY_FILLER_CLASSES = ["AfterFiller", "BeforeFiller", "AfterOpenFiller", "AfterNamesList", "AfterNamesStr", "AfterNamesNum",
+                     "BeforeNamesList", "BeforeNamesNum", "FnIfAfter", "MethodTryBefore", "IfWithFnFiller"]
+TIMES_CLASSES = ["Times2", "Times3", "Times5"]
+PY_CLASSES = list(E.PY_LAYERS) + PY_FILLER_CLASSES + TIMES_CLASSES + E.rename_classes()
+TS_CLASSES = list(E.TS_LAYERS) + ["AfterFiller", "BeforeFiller"] + TIMES_CLASSES
 TS_FILLER = ["function _tvHelper(_tvP) {", "    const _tvAcc = [_tvP];", "    return _tvAcc;", "}", "", ""]
+NAME_SPEC: dict = {}      # filled from the documents on every run (docs2cases.name_spec)
+
+
+def spec_for(ex) -> dict:
+    """documented name rules that a renaming of this fragment has to respect"""
+    if ex["linter"] == "modelled":      # generated fragments are judged by the two modelled rules
+        a, b = NAME_SPEC.get("perf", {}), NAME_SPEC.get("improper-logging", {})
+        return {k: list(a.get(k, [])) + list(b.get(k, [])) for k in set(a) | set(b)}
+    return NAME_SPEC.get(ex["linter"], {})
 
 
 # ------------------------------------------------------------------ fragments
@@ -94,24 +97,22 @@ def has_toplevel_def(code: str) -> bool:
 
 
 def ctx_for(cls: str, lang: str, code: str):
-    """text-level context of class `cls` for this fragment, or None when the class is not applicable; the pseudo contexts
-    ('times', n) and ('rename',) are returned for copies and renaming"""
+    """text-level context of class `cls` for this fragment, or None when the class is not defined for the language; the
+    pseudo contexts ('times', n) and ('rename', cls) are returned for copies and renaming"""
     if cls.startswith("Times"):
         return ("times", int(cls[5:]))
-    if cls == "Rename":
-        return ("rename",) if lang == "py" else None
-    if lang in ("ts", "js"):
-        if cls == "InMethod":
-            return E.wrap(["class _TvHolder {"], E.wrap(["_tvMethod(_tvA) {"], E.hole(), ["}"]), ["}"])
-        if cls in TS_WRAP:
-            return E.wrap(TS_WRAP[cls][0], E.hole(), TS_WRAP[cls][1])
-        if cls == "AfterFiller":
-            return E.seq(TS_FILLER, E.hole())
-        if cls == "BeforeFiller":
-            return E.seq([], E.hole(), ["", ""] + TS_FILLER)
-        return None
+    if cls == "Rename" or cls.startswith("Rn:"):
+        return ("rename", cls) if lang == "py" else None
     H = E.hole()
-    if cls in E.WRAPPERS or cls == "InMethod":
+    if lang in ("ts", "js"):
+        if cls in E.TS_LAYERS:
+            return E.layer(cls, H, "ts")
+        if cls == "AfterFiller":
+            return E.seq(TS_FILLER, H)
+        if cls == "BeforeFiller":
+            return E.seq([], H, ["", ""] + TS_FILLER)
+        return None
+    if cls in E.PY_LAYERS:
         return E.layer(cls, H)
     if cls == "AfterFiller":
         return E.seq(E.FILLER_CLOSED, H)
@@ -137,19 +138,20 @@ def applicable(cls: str, ex: dict, code: str) -> str | None:
     lang, linter = ex["lang"], ex["linter"]
     if linter == "file-header":
         return None if cls.startswith("Before") else "the header must stay at the top of the file"
-    if starts_with_header(lang, code) and not cls.startswith("Before") and cls != "Rename":
+    if starts_with_header(lang, code) and not cls.startswith(("Before", "Rn:")) and cls != "Rename":
         return "the example begins with a file header, which must stay at the top of the file"
-    if linter == "perf" and cls in ("InFor", "InWhile"):
+    if linter == "perf" and cls in E.LOOP_CLASSES:
         return "a loop around the example changes what the loop rules are about"
-    if lang == "py" and cls == "InClassBody" and has_toplevel_def(code):
+    if lang == "py" and cls in E.CLASS_BODY_CLASSES and has_toplevel_def(code):
         return "top-level functions would become methods"
     if lang == "py" and ("from __future__" in code):
         return "__future__ import must stay first"
     return None
 
 
-def embed_text(ctx, lang: str, code: str):
-    """-> dict(text, ranges=[(first line, last line, line offset, indent)], wrapper lines, filler ranges, plan/colmap)"""
+def embed_text(ctx, lang: str, code: str, spec: dict | None = None):
+    """-> dict(text, ranges=[(first line, last line, line offset, indent)], wrapper lines, filler ranges, plan/colmap),
+    or a string saying why the embedding does not apply"""
     body = body_lines(code)
     h = len(body)
     if ctx[0] == "times":
@@ -158,9 +160,9 @@ def embed_text(ctx, lang: str, code: str):
         return {"text": text, "ranges": [(k * (h + GAP) + 1, k * (h + GAP) + h, k * (h + GAP), 0) for k in range(n)],
                 "wrapper": set(), "filler": {}, "h": h}
     if ctx[0] == "rename":
-        plan = E.rename_plan(code)
+        plan, why = E.rename_plan_for(code, ctx[1], spec or {})
         if not plan:
-            return None
+            return why
         text, colmap = E.rename_text(code, plan)
         return {"text": text, "ranges": [(1, h, 0, 0)], "wrapper": set(), "filler": {}, "h": h, "plan": plan, "colmap": colmap}
     lines, hl, hi = E.render(ctx, body)
@@ -272,7 +274,9 @@ def coq_emb(case) -> str | None:
         return f"(ECopies {ctx[1]} {h + GAP})"
     if ctx[0] == "rename":
         return "(ERename " + coq.coq_list([f"({coq.coq_string(a)}, {coq.coq_string(b)})" for a, b in case["emb"]["plan"].items()]) + ")"
-    return f"(EPlug {E.ctx_to_coq(ctx, h)})"
+    term, role = E.ctx_to_coq(ctx, h)
+    case["hole_role"] = role
+    return f"(EPlug {term})"
 
 
 def judge_all(frags, cases, workdir, per_shard=6):
@@ -300,11 +304,17 @@ def judge_all(frags, cases, workdir, per_shard=6):
                 if c["ctx"][0] == "rename":
                     cm = c["emb"]["colmap"]
                     back = lambda line, col, cm=cm: _col_back(cm, line, col)   # noqa: E731
-                body.append(f"Eval vm_compute in (judge_embed concat_actual {c['coq_emb']} {me} (fst iso_{me}) (snd iso_{me}) "
+                role = c.get("hole_role", "body")
+                if role == "body":
+                    fx, io, ip = me, f"(fst iso_{me})", f"(snd iso_{me})"
+                else:      # else / finally positions: the fragment's statements hang under that field of the wrapper
+                    fx = f"(rerole {coq.coq_string(role)} {me})"
+                    io, ip = f"(outs concat_actual {fx})", f"(print_default {fx})"
+                body.append(f"Eval vm_compute in (judge_embed concat_actual {c['coq_emb']} {fx} {io} {ip} "
                             f"{_ireps(c['got']['v'], name, PRINT_RULE, back)} {_ireps(c['got']['v'], name, CONCAT_RULE, back)}).")
                 idx.append(("emb", i))
                 if c.get("check_algebra"):
-                    body.append(f"Eval vm_compute in (algebra_ok {c['coq_emb']} {me} {E.forest(c['emb']['text'])}).")
+                    body.append(f"Eval vm_compute in (algebra_ok {c['coq_emb']} {fx} {E.forest(c['emb']['text'])}).")
                     idx.append(("alg", i))
         shards.append("\n".join(body))
         index.append(idx)
@@ -430,18 +440,97 @@ def corpus_fragments():
     return out
 
 
-def classes_for(frag, tier, r):
-    ex = frag["ex"]
-    if ex.get("only_classes"):
-        return list(ex["only_classes"])
-    if frag["lang"] in ("ts", "js"):
-        return list(TS_CLASSES)
-    if frag["lang"] != "py":
-        return []
-    if frag["kind"] == "gen":
-        pool = PY_CLASSES_QUICK + PY_CLASSES_MORE
-        return r.sample(pool, 6 if tier == "quick" else 12)
-    return PY_CLASSES_QUICK + (PY_CLASSES_MORE if tier == "thorough" else r.sample(PY_CLASSES_MORE, 1))
+def make_case(fr, cls, filler_texts):
+    """the embedded case (fragment, context class), or the reason why the class does not apply to this fragment"""
+    ex = fr["ex"]
+    files, embs, ctx0 = [], [], None
+    for f in fr["files"]:
+        why = applicable(cls, ex, f["code"])
+        if why:
+            return why
+        ctx = ctx_for(cls, fr["lang"], f["code"])
+        if ctx is None:
+            return "context class not defined for this language"
+        emb = embed_text(ctx, fr["lang"], f["code"], spec_for(ex))
+        if isinstance(emb, str):
+            return emb
+        if not parses(fr["lang"], emb["text"]):
+            return "the embedded text is not well-formed (e.g. import/export inside a block)"
+        files.append({"name": f["name"], "code": emb["text"]})
+        embs.append(emb)
+        ctx0 = ctx0 or ctx
+        for lines in emb["filler"].values():
+            filler_texts[tuple(lines)] = fr["lang"]
+    return {"fid": fr["fid"], "cls": cls, "ctx": ctx0, "files": files, "embs": embs, "emb": embs[0]}
+
+
+def classes_of(fr):
+    return PY_CLASSES if fr["lang"] == "py" else TS_CLASSES if fr["lang"] in ("ts", "js") else []
+
+
+def plan_cases(frags, fids, tier, seed, only, chk, filler_texts):
+    """which (fragment, context class) pairs this run embeds.
+    thorough: every documented example under every context class; generated fragments under a sample.
+    quick: one PRNG chain per (linter, language) deals every context class to that linter's examples in turn - first to
+    the examples that are reported in isolation (there is something to move), every other class also to an unreported
+    one - so that every class is exercised for every linter in every run while each example gets only a share."""
+    cases, never = [], {}
+
+    def add(fr, cls):
+        c = make_case(fr, cls, filler_texts)
+        if isinstance(c, str):
+            chk.dist("not_applicable:" + ("excluded_by_documented_name_rules" if c.startswith("excluded by the documented") else cls.split(":")[0]))
+            return False
+        cases.append(c)
+        return True
+
+    groups: dict = {}
+    for fid in fids:
+        fr = frags[fid]
+        ex = fr["ex"]
+        if not ex.get("pattern_linter") or not classes_of(fr):
+            continue
+        if fid in only:
+            for cls in only[fid]:
+                add(fr, cls)
+        elif ex.get("only_classes"):
+            for cls in ex["only_classes"]:
+                add(fr, cls)
+        elif tier == "thorough" and fr["kind"] == "doc":
+            for cls in classes_of(fr):
+                add(fr, cls)
+        else:
+            groups.setdefault((ex["linter"], "py" if fr["lang"] == "py" else "ts"), []).append(fr)
+    for (linter, lg), members in sorted(groups.items()):
+        r = rng_for(seed, PROP, "deal", linter, lg)
+        classes = list(PY_CLASSES if lg == "py" else TS_CLASSES)
+        r.shuffle(classes)
+        hot = [f for f in members if any(x[0].startswith(f["ex"]["rule_prefix"]) or x[0] in MODELLED for x in f["iso"]["v"])]
+        cold = [f for f in members if f not in hot]
+        r.shuffle(hot)
+        r.shuffle(cold)
+        rounds = 1 if tier == "quick" or linter != "modelled" else max(1, (10 * len(members)) // max(1, len(classes)))
+        ph = pc = 0
+        for rnd in range(rounds):
+            for n, cls in enumerate(classes):
+                placed = False
+                for pool, every in ((hot, 1), (cold, 2)):
+                    if not pool or (n + rnd) % every:
+                        continue
+                    start = ph if pool is hot else pc
+                    for k in range(len(pool)):
+                        if add(pool[(start + k) % len(pool)], cls):
+                            placed = True
+                            if pool is hot:
+                                ph = (start + k + 1) % len(pool)
+                            else:
+                                pc = (start + k + 1) % len(pool)
+                            break
+                if not placed and not any(c["cls"] == cls and frags[c["fid"]]["ex"]["linter"] == linter for c in cases):
+                    never.setdefault(f"{linter}/{lg}", []).append(cls)
+    if never:      # e.g. class renamings for a linter whose examples define no class
+        chk.extra_cov["context_classes_without_an_applicable_example"] = {g: {"count": len(v), "first": sorted(v)[:8]} for g, v in never.items()}
+    return cases
 
 
 def _t(chk, what):
@@ -458,11 +547,19 @@ def run(tier: str, seed: int, replay: str | None = None) -> int:
     load_known(chk)
     chk.rule = ("fragments = every fenced example of docs/*-linter.md that the document marks as violating or acceptable (re-extracted on "
                 "every run) + seeded random Python fragments aimed at the two modelled detectors (loops, += of strings / numbers / lists, "
-                "prints, main blocks); each fragment is linted alone and, for the pattern linters, under every applicable context class "
-                "(inside def / method / class body / if / for / while / try / with, after / before closed, open and name-sharing filler "
-                "code, 2-5 copies, identifier renaming, compositions); a case (fragment, context) is non-trivial when the fragment alone "
-                "is reported by the linter under test or by a modelled rule, i.e. there is something to move; distinct = distinct "
-                "(fragment text, context class)")
+                "prints, main blocks); each fragment is linted alone and, for the pattern linters, embedded under context classes: every "
+                "statement position of CPython (def, async def, nested def, method, class body, class in class, if / elif / else, for / "
+                "while bodies and their else, try body / except / try-else / finally, with, match case, async for / async with) and of "
+                "TS/JS (function, arrow callback, class method, if / else, for, while, do-while, try / catch / finally, switch case, "
+                "namespace), after / before closed, open and name-sharing filler code, 2-5 copies, compositions, and identifier renamings "
+                "Rn:<kind>:<position>:<token> that rename the class, function or variable identifiers the fragment binds by embedding a token "
+                "linters are known to key on (test, Test, mixin, util, helper, manager, verbose, debug, log, tmp, _, __, single letters, "
+                "UPPER case) as prefix / infix / suffix - consistently, and only within what the documents say about names "
+                "(docs2cases.name_spec: names a document defines a pattern or exemption by are kept / never produced). thorough: every "
+                "documented example under every class; quick: per (linter, language) one PRNG chain deals every class to the linter's "
+                "examples in turn, so every class is exercised for every linter in every run. A case (fragment, context) is non-trivial "
+                "when the fragment alone is reported by the linter under test or by a modelled rule, i.e. there is something to move; "
+                "distinct = distinct (fragment text, context class)")
     chk.trusted_base += [
         "docs2cases: which fenced blocks count as examples and what the document claims about them (label / heading / inline marker rules, stated in translator/docs2cases.py); blocks it cannot parse are listed in the evidence, not judged",
         "CPython ast is the parser oracle of the two modelled detectors: the abstract input is the image of ast.parse (harness/c19_embed.py conv); Model/Embed.v plug/copies/rename are compared with the parse of the really embedded text on sampled cases of every context class (algebra_ok)",
@@ -485,6 +582,12 @@ def run(tier: str, seed: int, replay: str | None = None) -> int:
         chk.broken.append(f"Docs:{u} (docs2cases does not know this linter document: fail-closed)")
     if not extracted["examples"]:
         chk.broken.append("Docs:no documented example could be extracted")
+    ns = docs2cases.name_spec()
+    NAME_SPEC.clear()
+    NAME_SPEC.update(ns["spec"])
+    chk.extra_cov["documented_name_rules"] = ns["spec"]
+    for u in ns["problems"]:
+        chk.broken.append(f"Docs:{u} (the documented name rules that renamings must respect could not be read: fail-closed)")
 
     if replay:
         rp = json.loads(Path(replay).read_text())["violation"]
@@ -504,41 +607,9 @@ def run(tier: str, seed: int, replay: str | None = None) -> int:
     _t(chk, "isolated runs")
 
     # ---------------- embedded cases
-    cases = []
     filler_texts = {}
-    for fid in fids:
-        fr = frags[fid]
-        ex = fr["ex"]
-        if not ex.get("pattern_linter") or fr["lang"] not in ("py", "ts", "js"):
-            continue
-        r = rng_for(seed, PROP, "ctx", fid)
-        for cls in (only.get(fid) if fid in only else classes_for(fr, tier, r)):
-            why = None
-            files, embs, ctx0 = [], [], None
-            for f in fr["files"]:
-                why = why or applicable(cls, ex, f["code"])
-                if why:
-                    break
-                ctx = ctx_for(cls, fr["lang"], f["code"])
-                if ctx is None:
-                    why = "context class not defined for this language"
-                    break
-                emb = embed_text(ctx, fr["lang"], f["code"])
-                if emb is None:
-                    why = "nothing to rename"
-                    break
-                if not parses(fr["lang"], emb["text"]):
-                    why = "the embedded text is not well-formed (e.g. import/export inside a block)"
-                    break
-                files.append({"name": f["name"], "code": emb["text"]})
-                embs.append(emb)
-                ctx0 = ctx0 or ctx
-                for lines in emb["filler"].values():
-                    filler_texts[tuple(lines)] = fr["lang"]
-            if why:
-                chk.dist("not_applicable:" + cls)
-                continue
-            cases.append({"fid": fid, "cls": cls, "ctx": ctx0, "files": files, "embs": embs, "emb": embs[0]})
+    cases = plan_cases(frags, fids, tier, seed, only, chk, filler_texts)
+    chk.extra_cov["context_classes"] = {"python": len(PY_CLASSES), "typescript_javascript": len(TS_CLASSES)}
     gots = pool_map(run_impl, [{"files": c["files"], "config": frags[c["fid"]]["config"]} for c in cases], procs=8)
     for c, g in zip(cases, gots):
         c["got"] = g
@@ -576,7 +647,7 @@ def run(tier: str, seed: int, replay: str | None = None) -> int:
             chk.notes.append(f"context {c['cls']} of {c['fid']} could not be expressed in the algebra: {e}")
             continue
         k = seen_alg.get(c["cls"], 0)
-        if k < (3 if tier == "quick" else 12):
+        if k < (2 if tier == "quick" else 6):
             seen_alg[c["cls"]] = k + 1
             c["check_algebra"] = True
     iso_bits, emb_bits, alg = {}, {}, {}
@@ -640,7 +711,7 @@ def run(tier: str, seed: int, replay: str | None = None) -> int:
                            "fragment": _frag_payload(fr), "context_class": c["cls"], "embedded": c["files"]})
             continue
         prefixes = [ex["rule_prefix"]] + ([PRINT_RULE, CONCAT_RULE] if fr["lang"] == "py" else [])
-        if c["cls"] in ("InFor", "InWhile"):      # a loop around the fragment is not a neutral context for the loop rules
+        if c["cls"] in E.LOOP_CLASSES:      # a loop around the fragment is not a neutral context for the loop rules
             prefixes = [p for p in prefixes if not p.startswith("performance")]
         moved = [r for r in iso["v"] if r[0].startswith(tuple(prefixes))]
         chk.count([c["fid"], fr["files"], c["cls"]], bool(moved))
